@@ -212,7 +212,7 @@ func runQ2(t *testing.T, scn *q2Scn, prefix []int) (x explore.Exec) {
 		outcome = fmt.Sprintf("%s sends=%d", class, sends)
 		switch {
 		case second && qr2.Err == nil && qr2.Reply.Y != "":
-			viol = fmt.Sprintf("completed-by-foreign-reply: the second query (to another address, never answered) returned a reply: %+v", qr2.Reply)
+			viol = fmt.Sprintf("completed-by-foreign-reply: the second query (to another address, never answered) returned a reply (t=%x)", qr2.Reply.T)
 		case sends > scn.Tries:
 			viol = fmt.Sprintf("too-many-sends: %d datagrams for NumTries=%d", sends, scn.Tries)
 		case sendsAtReturn >= 0 && y.Conn.NumWrites() != sendsAtReturn:
@@ -288,7 +288,53 @@ func c14SyncTierImpl(t *testing.T, w *explore.Worker, idx *int) {
 	}
 }
 
+// C07 reads the same scenarios with its own oracle only: a query completes with a reply only if one
+// was delivered from the queried address for its transaction.
+func c07Only(r explore.Result) explore.Result {
+	if r.Viol != "" && !strings.HasPrefix(r.Viol, "completed-by-foreign-reply") && !strings.HasPrefix(r.Viol, "completed-without-reply") && !strings.HasPrefix(r.Viol, "HARNESS") {
+		r.Viol = ""
+	}
+	return r
+}
+
+func c07Q2(name string) bool {
+	return name == "reply-wrong-cancel" || name == "reply-cancel-then-second" || name == "reply-cancel"
+}
+
 func init() {
+	c07SyncTier = func(t *testing.T, w *explore.Worker, idx *int) {
+		pb := 2
+		if w.Thorough() {
+			pb = -1
+		}
+		w.Bound("sync_tier_preemption_bound", pb)
+		for _, scn := range q2Scenarios() {
+			scn := scn
+			if !c07Q2(scn.Name) {
+				continue
+			}
+			i := *idx
+			*idx++
+			if !w.Mine(i) {
+				continue
+			}
+			unit := "sync;scn=" + scn.Name
+			w.BeginUnit(i, unit)
+			d := &explore.DFS{W: w, Unit: unit, Preempt: pb, Observe: scn.Tries + 2, DetCheck: 2, Prune: true, MaxViol: 5,
+				Run: func(prefix []int) explore.Exec {
+					x := runQ2(t, &scn, prefix)
+					x.Res = c07Only(x.Res)
+					return x
+				}}
+			d.Explore()
+			w.AddStates(d.States)
+			w.Note(fmt.Sprintf("%s: %d executions, %d states expanded, %d prunings, max %d scheduling points", unit, d.Executions, d.States, d.Pruned, d.MaxPoints))
+			w.Flush(false)
+		}
+	}
+	c07SyncReplay = func(t *testing.T, c explore.Case) explore.Result {
+		return c07Only(c14SyncReplay(t, c))
+	}
 	c14SyncTier = c14SyncTierImpl
 	c14SyncReplay = func(t *testing.T, c explore.Case) explore.Result {
 		name := strings.TrimPrefix(c.Unit, "sync;scn=")
